@@ -1938,7 +1938,14 @@ impl<T: PPGEvaluatorStrategy> PPGEvaluator<T> {
                         invalidated = true;
                     }
                     Some(my_historical_input) => {
-                        if upstream_historical_output != my_historical_input {
+                        // whether it changed is for the strategy to say, the two records may
+                        // differ in ways (timestamps...) that are not an alteration.
+                        if strategy.is_history_altered(
+                            &jobs[upstream_idx].job_id,
+                            &jobs[node_idx].job_id,
+                            my_historical_input,
+                            upstream_historical_output,
+                        ) {
                             debug!("edge invalidated by epheremeral changed in prev run: History for {}->{} changed",
                                    &jobs[upstream_idx].job_id,
                                    &jobs[node_idx].job_id);
